@@ -5,4 +5,5 @@ func moreFacts() {
 	walFacts()
 	c20Facts()
 	c16Facts()
+	c11Facts()
 }
